@@ -698,7 +698,16 @@ VMLoop:
 		case OpFinalizer:
 			upto := int(vm.curInsts[vm.ip+1])
 
-			pos := vm.curFrame.errHandlers.findFinally(upto)
+			pos, leftSp := vm.curFrame.errHandlers.findFinally(upto)
+			if leftSp >= 0 && vm.curInsts[vm.ip+2] == OpJump {
+				// a break or continue statement leaves try statements from inside
+				// their catch or finally block: what a pending return left on
+				// the stack is dropped with them.
+				for vm.sp > leftSp {
+					vm.sp--
+					vm.stack[vm.sp] = nil
+				}
+			}
 			if pos <= 0 {
 				vm.ip++
 				continue
@@ -825,6 +834,7 @@ func (vm *VM) xOpSetupTry() {
 
 	ptrs := errHandler{
 		sp:      vm.sp,
+		entrySp: vm.sp,
 		catch:   catch,
 		finally: finally,
 	}
@@ -1471,7 +1481,10 @@ func (vm *VM) getSourcePos() parser.Pos {
 }
 
 type errHandler struct {
-	sp       int
+	sp int
+	// entrySp is the stack height at which the try statement was entered (sp
+	// is overwritten when a pending return or branch enters the finally block).
+	entrySp  int
 	catch    int
 	finally  int
 	returnTo int
@@ -1525,23 +1538,29 @@ func (t *errHandlers) hasHandler() bool {
 	return t != nil && len(t.handlers) > 0
 }
 
-func (t *errHandlers) findFinally(upto int) int {
+// findFinally returns the position of the innermost finally block not entered
+// yet among the handlers from index upto on (0 if there is none). The handlers
+// of try statements whose blocks were all entered are dropped on the way;
+// leftSp is the stack height at entry of the outermost one dropped, or -1.
+func (t *errHandlers) findFinally(upto int) (pos, leftSp int) {
+	leftSp = -1
 	if t == nil {
-		return 0
+		return 0, leftSp
 	}
 
 start:
 	index := len(t.handlers) - 1
 	if index < upto || index < 0 {
-		return 0
+		return 0, leftSp
 	}
 
 	p := t.handlers[index].finally
 	if p == 0 {
+		leftSp = t.handlers[index].entrySp
 		t.pop()
 		goto start
 	}
-	return p
+	return p, leftSp
 }
 
 func (t *errHandlers) hasReturnTo() int {
